@@ -12,7 +12,9 @@ def graph_snapshot(g, provided, select=None):
     kw = {"select": select} if select else {}
     return {"required": ins.required, "optional": ins.optional, "entrypoints": dict(ins.entrypoints), "bound": {k: repr(v) for k, v in sorted(ins.bound.items())},
             "outputs": g.outputs, "selected": g.selected, "entry_cfg": g.entrypoints_config, "hash": g.definition_hash, "nodes": tuple(sorted(g.nodes)),
-            "run": run_sync(g, provided, **kw)}
+            "run": run_sync(g, provided, **kw),
+            # runs with a run-time select (per-run scope computations must not be shared between derived graphs)
+            "run_select": [run_sync(g, provided, select=o) for o in g.outputs[:2]]}
 
 
 def node_snapshot(n, run_graph_inputs=None):
@@ -22,35 +24,58 @@ def node_snapshot(n, run_graph_inputs=None):
     return snap
 
 
-def graph_ops(g, spec, rng, log):
-    """Apply one random derivation to graph g; returns (description, derived or None if the op legitimately raised)."""
+def pick_op(g, rng):
+    """Choose one derivation (as replayable data) applicable to graph g."""
     outs = list(g.outputs)
     req = list(g.inputs.required) + list(g.inputs.optional)
     op = rng.choice(["bind", "unbind", "select", "with_entrypoint", "add_nodes", "add_nodes_empty", "as_node"])
+    if op == "bind" and req:
+        return ("bind", rng.choice(req), rng.choice(dag.VALUES))
+    if op == "unbind" and g.inputs.bound:
+        return ("unbind", rng.choice(sorted(g.inputs.bound)))
+    if op == "select" and outs:
+        return ("select", rng.choice(outs))
+    if op == "with_entrypoint":
+        return ("with_entrypoint", rng.choice(sorted(g.nodes)))
+    if op == "add_nodes" and (req + outs):
+        return ("add_nodes", f"extra{rng.randrange(1000)}", rng.choice(req + outs), f"xo{rng.randrange(1000)}")
+    if op == "add_nodes_empty":
+        return ("add_nodes_empty",)
+    if op == "as_node":
+        return ("as_node",)
+    return None
+
+
+def apply_op(g, op, log):
+    """Apply a recorded derivation; returns the derived object, or None when the library legitimately rejects it."""
     try:
-        if op == "bind" and req:
-            k = rng.choice(req)
-            return f"bind({k})", g.bind(**{k: rng.choice(dag.VALUES)})
-        if op == "unbind" and g.inputs.bound:
-            k = rng.choice(sorted(g.inputs.bound))
-            return f"unbind({k})", g.unbind(k)
-        if op == "select" and outs:
-            k = rng.choice(outs)
-            return f"select({k})", g.select(k)
-        if op == "with_entrypoint":
-            k = rng.choice(sorted(g.nodes))
-            return f"with_entrypoint({k})", g.with_entrypoint(k)
-        if op == "add_nodes":
-            extra = tagged_node(f"extra{rng.randrange(1000)}", [rng.choice(req + outs)] if (req + outs) else [], [f"xo{rng.randrange(1000)}"], log)
-            return "add_nodes(extra)", g.add_nodes(extra)
-        if op == "add_nodes_empty":
-            return "add_nodes()", g.add_nodes()
-        if op == "as_node":
-            gn = (g if g.name else Graph(list(g.nodes.values()), name="wrapped")).as_node()
-            return "as_node()", gn
-    except Exception:  # noqa: BLE001 - an operation may be legitimately rejected (e.g. binding an output); the receiver must still be unchanged
-        return op + " (rejected)", None
-    return op + " (n/a)", None
+        if op[0] == "bind":
+            return g.bind(**{op[1]: op[2]})
+        if op[0] == "unbind":
+            return g.unbind(op[1])
+        if op[0] == "select":
+            return g.select(op[1])
+        if op[0] == "with_entrypoint":
+            return g.with_entrypoint(op[1])
+        if op[0] == "add_nodes":
+            return g.add_nodes(tagged_node(op[1], [op[2]], [op[3]], log))
+        if op[0] == "add_nodes_empty":
+            return g.add_nodes()
+        if op[0] == "as_node":
+            return (g if g.name else Graph(list(g.nodes.values()), name="wrapped")).as_node()
+    except Exception:  # noqa: BLE001
+        return None
+    return None
+
+
+def twin(spec, ops_path):
+    """The same derivation path replayed on an independently built root that has never been run or inspected."""
+    g, _ = dag.build(spec, Log())
+    for op in ops_path:
+        g = apply_op(g, op, Log())
+        if g is None:
+            return None
+    return g
 
 
 def check_graph(spec, res, opseed):
@@ -59,29 +84,37 @@ def check_graph(spec, res, opseed):
     log = Log()
     g0, _ = dag.build(spec, log)
     provided = spec["provided"]
-    objs = [(g0, "root", graph_snapshot(g0, provided))]
+    rep = {"harness": "C07", "spec": dict(spec, opseed=opseed), "part": "graph"}
+    objs = [(g0, "root", graph_snapshot(g0, provided), [])]
     history = []
     for step in range(3):
-        base, bname, _ = rng.choice([o for o in objs if isinstance(o[0], Graph)])
-        desc, d = graph_ops(base, spec, rng, log)
-        history.append(f"{bname}.{desc}")
+        base, bname, _, bpath = rng.choice([o for o in objs if isinstance(o[0], Graph)])
+        op = pick_op(base, rng)
+        if op is None:
+            continue
+        d = apply_op(base, op, log)
+        history.append(f"{bname}.{op}")
         if d is not None:
             if d is base:
-                res.fail(kind="oracle", function=f"Graph.{desc.split('(')[0]}", what=f"{desc} returned the receiver itself, not a new object", replay={"harness": "C07", "spec": dict(spec, opseed=opseed), "part": "graph"})
+                res.fail(kind="oracle", function=f"Graph.{op[0]}", what=f"{op} returned the receiver itself, not a new object", replay=rep)
             if isinstance(d, Graph):
-                # use the derived object: runs with and without a run-time select
                 snap = graph_snapshot(d, provided)
-                if d.outputs:
-                    run_sync(d, provided, select=d.outputs[0])
-                objs.append((d, f"d{step}", snap))
+                t = twin(spec, bpath + [op])
+                if t is not None:
+                    tsnap = graph_snapshot(t, provided)
+                    if tsnap != snap:
+                        diff = {k: (tsnap[k], snap[k]) for k in snap if snap[k] != tsnap[k]}
+                        res.fail(kind="oracle", function="Graph derivation (independence)", what=f"derived object {history} differs from an independently built twin (twin, derived): {diff}", replay=rep)
+                        return
+                objs.append((d, f"d{step}", snap, bpath + [op]))
             else:
                 node_snapshot(d)
         # every earlier object must still look and behave exactly as when it was first observed
-        for o, name, snap in objs:
+        for o, name, snap, _p in objs:
             now = graph_snapshot(o, provided)
             if now != snap:
                 diff = {k: (snap[k], now[k]) for k in snap if snap[k] != now[k]}
-                res.fail(kind="oracle", function="Graph derivation (immutability)", what=f"object {name} changed after {history}: {diff}", replay={"harness": "C07", "spec": dict(spec, opseed=opseed), "part": "graph"})
+                res.fail(kind="oracle", function="Graph derivation (immutability)", what=f"object {name} changed after {history}: {diff}", replay=rep)
                 return
     res.case(repr((spec["nodes"], opseed)), nontrivial=True, sample={"history": history})
 
